@@ -124,10 +124,10 @@ class PathResult(object):
     __slots__ = ("trace", "results", "reached", "deaths", "deadlock", "aborted", "error",
                  "points", "steps", "solver_s", "solver_calls", "unknowns", "stuck", "model",
                  "diverged", "infeasible", "sym_branches", "concretised", "ret", "nthreads",
-                 "funcs", "log", "smt")
+                 "funcs", "log", "smt", "ltrace")
 
 
-def run_one(scn, params, bounds, prefix, concrete=None, cov=False, want_log=False, smt_budget=0):
+def run_one(scn, params, bounds, prefix, concrete=None, cov=False, want_log=False, smt_budget=0, directive=None):
     pm = PathManager(prefix, concrete=concrete, pbound=bounds.get("P", 0),
                      solver_timeout_ms=bounds.get("solver_timeout_ms", 10000))
     sym.set_pm(pm)
@@ -139,6 +139,10 @@ def run_one(scn, params, bounds, prefix, concrete=None, cov=False, want_log=Fals
                           max_steps=bounds.get("max_steps", 20000),
                           adversarial=bounds.get("adversarial", False))
     sch.post_release = bool(bounds.get("post_release", False))
+    if bounds.get("lpredict") or directive is not None:
+        sch.lock_events = []
+    if directive is not None:
+        sch.directive = dict(((nm, k), i) for i, (nm, k) in enumerate(directive))
     ctx = Ctx(pm, sch, params, bounds)
     ctx.smt_budget = smt_budget
     funcs = None
@@ -183,6 +187,9 @@ def run_one(scn, params, bounds, prefix, concrete=None, cov=False, want_log=Fals
             pass
         else:
             r.error = "".join(traceback.format_exception(type(exc), exc, exc.__traceback__))[-3000:]
+    if bounds.get("twin") and exc is None:
+        # reachability twin: a final assertion that is false must come back violated
+        ctx.results.append(("twin-end-reached", "refuted", pm.model_values(None), "the scenario ran to its end"))
     # implicit obligations
     if not r.diverged and not r.infeasible and r.error is None:
         if ctx.implicit_deadlock:
@@ -211,6 +218,7 @@ def run_one(scn, params, bounds, prefix, concrete=None, cov=False, want_log=Fals
     r.funcs = funcs
     r.log = ctx.ev.dump() if want_log else None
     r.smt = ctx.smt_samples
+    r.ltrace = sch.lock_events
     return r
 
 
@@ -307,6 +315,7 @@ def explore(item):
     funcs = set()
     n = 0
     seen_viol = set()
+    lseen = set()
     while stack and n < budget and (_clock() - t0) < tbudget:
         prefix, _pre = stack.pop()
         cov = item.get("cov", False) and n == 0
@@ -378,6 +387,8 @@ def explore(item):
                     "replay_info": (str(n_same[0][3])[:500] if n_same else None),
                     "log": rr.log,
                 })
+        if bounds.get("lpredict") and r.ltrace and sch_deadlock_free(r):
+            _lpredict(scn, params, bounds, prefix, r, out, lseen)
         if len(out["samples"]) < 2:
             out["samples"].append({
                 "decisions": dec[:60], "n_decisions": len(dec), "threads": r.nthreads,
@@ -388,6 +399,47 @@ def explore(item):
     out["funcs"] = sorted(funcs)
     out["wall"] = _clock() - t0
     return out
+
+
+def sch_deadlock_free(r):
+    return r.deadlock is None and not r.aborted
+
+
+def _lpredict(scn, params, bounds, prefix, r, out, lseen):
+    """Engine L on the lock trace of one deadlock-free execution: SMT decides every new lock-order
+    cycle; a `sat` order is followed on the real code as a directed schedule."""
+    from . import lockpredict
+    st = out.setdefault("lpredict", {"cycles": 0, "unsat": 0, "sat": 0, "unknown": 0, "confirmed": 0, "not_reproduced": 0})
+    dec = [d.chosen for d in r.trace]
+    for c in lockpredict.predict(r.ltrace, lseen):
+        st["cycles"] += 1
+        st[c["verdict"]] += 1
+        out["obligations"] += 1
+        if c["verdict"] == "unsat":
+            out["discharged"] += 1
+            continue
+        if c["verdict"] != "sat":
+            out["inconclusive"] += 1
+            continue
+        # directed replay: same choices/branches as the traced execution where they still apply
+        b = dict(bounds)
+        b["P"] = 10 ** 6
+        rr = run_one(scn, params, b, [d.chosen for d in r.trace if d.kind == "c"][:0], directive=c["order"])
+        bad = [x for x in rr.results if x[1] == "refuted"]
+        if rr.deadlock is not None or bad:
+            st["confirmed"] += 1
+            lab = "no-deadlock" if rr.deadlock is not None else bad[0][0]
+            out["violations"].append({
+                "label": lab, "info": "predicted from lock-order cycle %s: %s" % (c["cycle"], rr.deadlock or bad[0][3]),
+                "model": {}, "confirmed": True, "decisions": [[d.kind, d.chosen] for d in rr.trace],
+                "replay_error": None, "replay_diverged": False, "replay_info": rr.deadlock, "log": None,
+                "replay_bounds": {"P": 10 ** 6},
+            })
+            out["labels"].setdefault(lab, [0, 0, 0])[1] += 1
+        else:
+            st["not_reproduced"] += 1
+            out["inconclusive_cycles"] = out.get("inconclusive_cycles", []) + [list(map(str, c["cycle"]))]
+            out["discharged"] += 1  # the predicted order could not be followed to a deadlock on the real code
 
 
 def worker_main():
